@@ -1,6 +1,6 @@
 (** non-vacuity for C05: concrete, non-trivial instances meeting the hypotheses of the main theorems *)
 From Coq Require Import List NArith ZArith Bool String Ascii.
-From ApiFu Require Import Base.Sexp Val.Values Val.CoerceModel Val.CoerceSpec Val.CoerceProofs Val.CoerceRefine Val.CoerceRoutes Val.CoerceTotal.
+From ApiFu Require Import Base.Sexp Val.Values Val.CoerceModel Val.CoerceSpec Val.CoerceProofs Val.CoerceReasons Val.CoerceRefine Val.CoerceRoutes Val.CoerceTotal Val.CoerceComplete.
 Import ListNotations.
 Open Scope string_scope.
 
@@ -115,3 +115,62 @@ Proof.
   - intros p [<-|[<-|[]]]; vm_compute; reflexivity.
   - vm_compute; reflexivity.
 Qed.
+
+(** static_dynamic_agree is not vacuous and its four reasons are each needed.  The served example
+    has no run-time reason; then one request per reason, each accepted by validation, each a
+    run-time error, each with exactly that reason. *)
+Example no_runtime_reason : runtime_reason Eex dtex defs_ex args_ex raw_ex = false.
+Proof. vm_compute; reflexivity. Qed.
+
+Definition Er : env :=
+  [ (nm "Int", TScalar KInt);
+    (nm "R", TInput [ (nm "a", {| in_type := StNamed (nm "Int"); in_default := None |}) ] HFail) ].
+Definition one_arg (t : sty) : list (name * in_def) := [ (nm "x", {| in_type := t; in_default := None |}) ].
+Definition one_var (t : sty) (d : option lit) : list vardef := [ {| vd_name := nm "s"; vd_type := t; vd_default := d |} ].
+Definition Eint : env := [ (nm "Int", TScalar KInt) ].
+
+(** query($s: Int = 1) { f(x: $s) }  with x: Int!  and {"s": null} *)
+Example reason_null_variable :
+  let argdefs := one_arg (StNonNull (StNamed (nm "Int"))) in
+  let defs := one_var (StNamed (nm "Int")) (Some (LInt 1)) in
+  let args := [ (nm "x", LVar (nm "s")) ] in
+  let raw := [ (nm "s", JNull) ] in
+  static_ok all_fixed Eint dtex true argdefs defs args = true /\
+  run_request all_fixed Eint dtex true argdefs defs args raw = ORuntimeError /\
+  coerce_variable_values all_fixed Eint dtex defs raw = Ok [ (nm "s", GNil) ] /\
+  null_variable [ (nm "s", GNil) ] args = true /\ absent_item_variable [ (nm "s", GNil) ] args = false /\
+  bad_variable_value all_fixed Eint dtex defs raw = false /\ refusing_hook Eint = false.
+Proof. cbv zeta. repeat split; vm_compute; reflexivity. Qed.
+
+(** query($s: Int) { f(x: [$s]) }  with x: [Int]  and no variable values *)
+Example reason_absent_item_variable :
+  let argdefs := one_arg (StList (StNamed (nm "Int"))) in
+  let defs := one_var (StNamed (nm "Int")) None in
+  let args := [ (nm "x", LList [LVar (nm "s")]) ] in
+  static_ok all_fixed Eint dtex true argdefs defs args = true /\
+  run_request all_fixed Eint dtex true argdefs defs args [] = ORuntimeError /\
+  coerce_variable_values all_fixed Eint dtex defs [] = Ok [] /\
+  null_variable [] args = false /\ absent_item_variable [] args = true /\
+  bad_variable_value all_fixed Eint dtex defs [] = false /\ refusing_hook Eint = false.
+Proof. cbv zeta. repeat split; vm_compute; reflexivity. Qed.
+
+(** { f(x: {a: 1}) }  with x: R, whose InputCoercion hook refuses *)
+Example reason_refusing_hook :
+  let argdefs := one_arg (StNamed (nm "R")) in
+  let args := [ (nm "x", LObject [ (nm "a", LInt 1) ]) ] in
+  static_ok all_fixed Er dtex true argdefs [] args = true /\
+  run_request all_fixed Er dtex true argdefs [] args [] = ORuntimeError /\
+  null_variable [] args = false /\ absent_item_variable [] args = false /\
+  bad_variable_value all_fixed Er dtex [] [] = false /\ refusing_hook Er = true.
+Proof. cbv zeta. repeat split; vm_compute; reflexivity. Qed.
+
+(** query($s: Int!) { f(x: $s) }  with {"s": "seven"} *)
+Example reason_bad_variable_value :
+  let argdefs := one_arg (StNamed (nm "Int")) in
+  let defs := one_var (StNonNull (StNamed (nm "Int"))) None in
+  let args := [ (nm "x", LVar (nm "s")) ] in
+  let raw := [ (nm "s", JStr (nm "seven")) ] in
+  static_ok all_fixed Eint dtex true argdefs defs args = true /\
+  run_request all_fixed Eint dtex true argdefs defs args raw = ORuntimeError /\
+  bad_variable_value all_fixed Eint dtex defs raw = true /\ refusing_hook Eint = false.
+Proof. cbv zeta. repeat split; vm_compute; reflexivity. Qed.
